@@ -158,6 +158,52 @@ Theorem C02_cursor_position : forall data row col,
   exists body rest, mid data 2 1 = Ok body /\ numbers_decode body 59 = (row + 1) :: (col + 1) :: rest.
 Proof. exact dec_cursor_spec. Qed.
 
+(* the same for every other decoder with numeric fields: each field is an element of a parameter
+   list of the sequence (hence, by C02_parameter_values / C02_numbers, the clamped unbounded decimal
+   value of its digits), minus one for the one-based mouse coordinates; function-key numbers are an
+   offset of the key code; modifier sets are the nine known bits of (m - 1) *)
+Theorem C02_numeric_fields :
+  (forall data name mode row col, dec_mouse data = Ok (RSome (PMouse name mode row col)) ->
+     exists body e rest last,
+       mid data 3 1 = Ok body /\ numbers_decode body 59 = e :: (col + 1) :: (row + 1) :: rest /\
+       index data (length data - 1) = Ok last /\
+       mode = (let m := N.land (N.land (N.shiftr e 2) 7) 511 in if last =? 77 then N.lor m 256 else m)) /\
+  (forall data a b c d, dec_termsize data = Ok (RSome (PSize a b c d)) ->
+     exists p0 cell pix more cb pb r1 r2,
+       split_on 27 data = p0 :: cell :: pix :: more /\
+       mid cell 3 1 = Ok cb /\ numbers_decode cb 59 = a :: b :: r1 /\
+       mid pix 3 1 = Ok pb /\ numbers_decode pb 59 = c :: d :: r2) /\
+  (forall data n, dec_kitty_keyboard data = Ok (RSome (PKeyLevel n)) ->
+     exists rest, mid data 2 1 = Ok (63 :: rest) /\ number_decode rest = Some n) /\
+  (forall data kind arg mode, dec_kitty_keyboard data = Ok (RSome (PKey kind arg mode)) ->
+     exists body codes fields,
+       mid data 2 1 = Ok body /\ split_on 59 body = codes :: fields /\
+       keyboard_key (match numbers_decode codes 58 with c :: _ => c | [] => 1 end) = Some (kind, arg) /\
+       mode = match fields with
+              | [] => 0
+              | modes :: _ => match numbers_decode modes 58 with
+                              | m :: _ => if 1 <? m then N.land (m - 1) 511 else 0
+                              | [] => 0
+                              end
+              end) /\
+  (forall code kind arg, keyboard_key code = Some (kind, arg) ->
+     (kind = 0 /\ code = 27) \/ (kind = 1 /\ code = 13) \/ (kind = 2 /\ code = 9) \/ (kind = 3 /\ code = 127) \/
+     (kind = 4 /\ 57376 <= code <= 57398 /\ arg = code - 57376 + 13) \/
+     (kind = 5 /\ arg = code /\ scalar_ok code = true)) /\
+  (forall data l, dec_devattrs data = Ok (RSome (PDevAttrs l)) ->
+     exists body, mid data 3 1 = Ok body /\ l = to_set (filter (fun v => 0 <? v) (numbers_decode body 59))) /\
+  (forall data id pl err, dec_kitty_image data = Ok (RSome (PKitty id pl err)) ->
+     exists body, mid data 3 2 = Ok body /\
+       let kvs := key_value_decode 44 (fst (split_first 59 body)) in
+       (id = 0 \/ exists v, In ([105], v) kvs /\ number_decode v = Some id) /\
+       (pl = None \/ exists v n, In ([112], v) kvs /\ number_decode v = Some n /\ pl = Some n)) /\
+  (forall data idx r, dec_osc data = Ok r -> (r = RSome (PColor 2 idx) \/ r = RExt (PColor 2 idx)) ->
+     exists body a0 a1 rest, split_on 59 body = a0 :: a1 :: rest /\ number_decode a0 = Some 4 /\ number_decode a1 = Some idx).
+Proof.
+  exact (conj dec_mouse_spec (conj dec_termsize_spec (conj dec_keylevel_spec (conj dec_key_spec
+        (conj keyboard_key_spec (conj dec_devattrs_spec (conj dec_kitty_image_spec dec_osc_palette_spec))))))).
+Qed.
+
 (* unrecognised input surfaces as raw events whose bytes occur in the input in order: all spans,
    recognised or raw, followed by the pending bytes, are the input *)
 Theorem C02_spans_in_order : forall s : list N,
